@@ -329,6 +329,26 @@ def gen_cases(rng, n):
             case = {"par": par, "pool": pool, "hists": [gen_ops(rng, par, pool, n_ops)], "incr": None}
             if rng.random() < 0.25:
                 case["other"] = gen_params(rng)
+            if rng.random() < 0.2:
+                case["facade"] = True
+            if rng.random() < 0.06:
+                # integers beyond 2**53 with an integer granularity: integer arithmetic is exact at every magnitude
+                big = {"granularity": ["i", str(rng.choice([2, 3, 5, 7, 10, 64]))]}
+                if rng.random() < 0.4:
+                    big["minimum"] = ["i", str(-(2 ** rng.choice([55, 70])) - rng.randrange(100))]
+                if rng.random() < 0.4:
+                    big["maximum"] = ["i", str(2 ** rng.choice([60, 90]) + rng.randrange(100))]
+                ops = []
+                for _ in range(rng.randint(2, 10)):
+                    r = rng.random()
+                    if r < 0.6:
+                        ops.append(["w", ["i", str(rng.choice([1, -1]) * (2 ** rng.choice([54, 58, 61, 64, 80]) + rng.randrange(1000)))]])
+                    elif r < 0.85:
+                        ops.append(["r"])
+                    else:
+                        ops.append(["incr", rng.choice([1, 7, 3])])
+                case = {"par": big, "pool": {"demand": ["i", "0"], "supply": ["i", str(rng.randrange(50))], "util": pool["util"],
+                                             "alloc": pool["alloc"]}, "hists": [ops], "incr": None}
             if rng.random() < 0.04:
                 # a pool of unlimited supply (oracle-only stream): writes and reads only
                 case["pool"] = dict(pool, supply=["f", rng.choice(["inf", "inf", "-inf"])])
@@ -361,6 +381,22 @@ def _mk_target(pool):
             self.demand, self.supply, self.utilisation, self.allocation = demand, supply, util, alloc
 
     return Target(dec(pool["demand"]), dec(pool["supply"]), dec(pool["util"]), dec(pool["alloc"]))
+
+
+def _facade(real):
+    """the Standardiser's target is itself a decorator that overrides what it reports (a unit converter, a
+    re-wired chain): here it reports the state of `real` while the pool it formally decorates says something else.
+    What a decorator sees is its target, not what its target may happen to decorate"""
+    from cobald.interfaces import PoolDecorator
+
+    class Facade(PoolDecorator):
+        supply = property(lambda self: real.supply)
+        utilisation = property(lambda self: real.utilisation)
+        allocation = property(lambda self: real.allocation)
+        demand = property(lambda self: real.demand, lambda self, v: setattr(real, "demand", v))
+
+    decoy = _mk_target({"demand": ["i", "777"], "supply": ["i", "555"], "util": ["f", "1/8"], "alloc": ["f", "3/8"]})
+    return Facade(decoy)
 
 
 def _observe(std, target, read):
@@ -397,7 +433,7 @@ def run_impl(case):
         return res
     for ops in case["hists"]:
         t = _mk_target(case["pool"])
-        s = Standardiser(t, **kwargs)
+        s = Standardiser(_facade(t) if case.get("facade") else t, **kwargs)
         if case.get("other"):
             # a second, unrelated instance with other limits (another pipeline in the same process, or the
             # next layer of a Limiter >> Coarser stack): instances do not influence each other
